@@ -327,6 +327,8 @@ def diagnose(job, script, wd):
     of the finding signature:
       macro ring       at the end a FakeKey state (a key pressed by a macro) is left while no macro cursor is active,
                        and the 4-slot ring of macro cursors was full at some moment of the run
+      chords v2 held   at the end a state is left on a chords-v2 virtual coordinate (y >= 768): an activated chord
+                       was never released
       chords v2 flood  the configuration has defchordsv2 and the history has more than 16 events between two ticks
       os repeat        the stuck keys were pressed at the OS by an OS-repeat event while kanata had them lifted
       twin customs     two Custom-action states created at the same coordinate were removed by one release
@@ -370,6 +372,10 @@ def diagnose(job, script, wd):
     run = max_run(script)
     if fk and last["nseq"] == 0 and max_nseq >= 4:
         return "macro ring: %d key(s) pressed by a macro left with no active macro after the 4-slot ring was full" % len(fk)
+    virt = [x for x in last["st"] if x[0] in ("nk", "lm", "cu", "rs") and x[2] == 0 and x[3] >= 768]
+    if virt and "(defchordsv2" in job["cfg"]:
+        return ("chords v2: an activated chord is still held on its virtual coordinate after all keys are up: %s"
+                % json.dumps(virt[:3]))
     if "(defchordsv2" in job["cfg"] and run > 16:
         return "chords v2 flood: more than 16 events between two ticks (%d)" % run
     if down and down <= rep_pressed:
@@ -461,7 +467,7 @@ def all_key_codes():
 
 def burst_jobs(tier, rng):
     C = cfgdesc.code
-    n = 4 if tier == "quick" else 40
+    n = 6 if tier == "quick" else 40
     jobs = []
 
     def job(tag, kbd, scripts):
@@ -505,7 +511,8 @@ def burst_jobs(tier, rng):
         m = rng.randint(62, 70)
         order = ks[:m]
         for sp in special:
-            order.insert(rng.randint(0, len(order)), sp)
+            # early (a state is created normally) or late (the 64-entry vector is already full)
+            order.insert(rng.randint(0, 20) if rng.random() < 0.5 else rng.randint(len(order) - 2, len(order)), sp)
         for k in order:
             s.append(["d", k])
             down.add(k)
